@@ -88,6 +88,12 @@ pub fn model_step(bits: &[u8], pos: usize, e: En, zext: bool, op: &ROp) -> Optio
             Some(Expect::Unit(*p as usize))
         }
         ROp::CloneSwitch => Some(Expect::Unit(pos)),
+        ROp::PeekSkip(k, n) => {
+            if !within(*k) || n > k {
+                return None;
+            }
+            Some(Expect::Value(get_bits_zext(bits, pos, *k, e), pos + n))
+        }
         ROp::PastEnd => {
             if zext || pos + 64 <= len {
                 None
@@ -186,6 +192,7 @@ pub fn run_ops(prop_tag: &str, h: &mut ReaderHandle, bits: &[u8], start: usize, 
         }
         let n_of = match op {
             ROp::Read(n) | ROp::Peek(n) | ROp::Skip(n) | ROp::IoRead(n) => *n as u64,
+            ROp::PeekSkip(k, n) => (*k * 100 + *n) as u64,
             ROp::Seek(p) => *p % wbits as u64,
             _ => 0,
         };
@@ -250,6 +257,18 @@ pub fn run_ops(prop_tag: &str, h: &mut ReaderHandle, bits: &[u8], start: usize, 
                 }
                 fill_valid = false;
                 lost = false;
+            }
+            ROp::PeekSkip(k, n) => {
+                match (guard(|| h.r.peek_bits(*k)), &exp) {
+                    (Out::Ok(v), Expect::Value(x, _)) if v == *x => {}
+                    (o, _) => fail!(format!("peek got {} expected {:?}", o.show(), exp), if o.is_ok() { "wrong-value".into() } else { o.class() }),
+                }
+                if let Out::Panic(p) = guard(|| {
+                    h.r.skip_after_peek(*n);
+                    Ok(())
+                }) {
+                    fail!(format!("skip_bits_after_peek({}) panicked: {}", n, p), format!("panic[{}]", panic_kind(&p)));
+                }
             }
             ROp::PastEnd => {
                 // only a panic is judged here (whether it errs is C09's property)
@@ -331,6 +350,9 @@ pub fn gen_history(rng: &mut Rng, cfg: RCfg, image: &[u8], len: usize, o: &GenOp
             ROp::Read(n)
         } else if r < 45 {
             ROp::Peek(1 + rng.below(cfg.kind.peek_limit() as u64) as usize)
+        } else if r < 47 {
+            let k = 1 + rng.below(cfg.kind.peek_limit() as u64) as usize;
+            ROp::PeekSkip(k, rng.below(k as u64 + 1) as usize)
         } else if r < 57 {
             let n = if rng.chance(1, 3) { rng.below(3 * w as u64 + 3) as usize } else { rng.below(20) as usize };
             ROp::Skip(n)
